@@ -921,7 +921,7 @@ pub fn alloc_cases(fmt: &str, rng: &mut Rng, n: usize, out: &mut Vec<String>) {
         let rec_size = f.len() / nrec;
         let cap = *rng.pick(&[rec_size * 3 + 7, rec_size * 5 + 1, 1024, 4096, 65536]);
         let mut ops = vec![];
-        match rng.below(3) {
+        match rng.below(6) {
             0 => {
                 for _ in 0..nrec + 2 {
                     ops.push(Op::Next);
@@ -932,9 +932,27 @@ pub fn alloc_cases(fmt: &str, rng: &mut Rng, n: usize, out: &mut Vec<String>) {
                     ops.push(Op::Set(0));
                 }
             }
-            _ => {
+            2 => {
                 for i in 0..nrec {
                     ops.push(Op::Set(i % 2));
+                }
+            }
+            3 => {
+                // one record at a time into a reused set
+                for _ in 0..nrec {
+                    ops.push(Op::Exact(0, 1));
+                }
+            }
+            _ => {
+                // switches between single reads and set reads at every phase of the buffer
+                let mut left = nrec + 4;
+                while left > 0 {
+                    let k = rng.range(1, 7).min(left);
+                    for _ in 0..k {
+                        ops.push(Op::Next);
+                    }
+                    ops.push(Op::Set(0));
+                    left -= k;
                 }
             }
         }
